@@ -1077,13 +1077,33 @@ class PathSum(object):
                 if isinstance(v, ast.Constant):
                     parts.append(const(v.value))
                 else:
-                    parts.append(None)
+                    spec = ''
+                    if v.format_spec is not None:
+                        if all(isinstance(x, ast.Constant)
+                               for x in v.format_spec.values):
+                            spec = ''.join(str(x.value)
+                                           for x in v.format_spec.values)
+                        else:
+                            spec = '?'
+                    conv = {-1: '', 115: 's', 114: 'r', 97: 'a'}.get(
+                        v.conversion, '')
+                    parts.append((conv, spec))
                     exprs.append(v.value)
             out = []
             for s, items in self.ev_list(exprs, st, fi):
                 it = iter(items)
-                out.append((s, self.concat([p if p is not None else op(
-                    'str', next(it)) for p in parts])))
+                built = []
+                for p in parts:
+                    if isinstance(p, tuple) and len(p) == 2 and \
+                            isinstance(p[0], str) and p[0] != 'const':
+                        val = next(it)
+                        if p == ('', ''):
+                            built.append(op('str', val))
+                        else:
+                            built.append(op('fmt', const('%s:%s' % p), val))
+                    else:
+                        built.append(p)
+                out.append((s, self.concat(built)))
             return out
         if isinstance(e, ast.Lambda):
             sub = self._nested_func(e, fi)
@@ -1246,7 +1266,8 @@ class PathSum(object):
                 out.append(p)
         if not out:
             return const('')
-        if len(out) == 1 and is_const(out[0]):
+        if len(out) == 1 and (is_const(out[0]) or (
+                out[0][0] == 'op' and out[0][1] in ('str', 'fmt'))):
             return out[0]
         return ('op', 'concat', tuple(out))
 
